@@ -348,7 +348,7 @@ def run(chk):
                 "(0-2 items, one of them wholly missing), add, remove, in-place edit of an item's arrays, `a.tracks = b.tracks`, "
                 "encode; after EVERY operation: identity of every instance's items and the sha of its encoding; oracle: only the "
                 "target instance changes (an edited object the caller himself placed in two blocks excepted), a block built "
-                "without items is empty; non-trivial = >= 2 instances exist at some point")
+                "without items is empty; plus pairs of events / tracks built from ONE caller-side source of numbers (list, tuple, arrays of other dtypes, array.array, memoryview, __array__ provider); non-trivial = >= 2 instances exist at some point")
     scripts = []
     creates = [("new",), ("decode", 0), ("decode", 1), ("decode", 2), ("new_given",)]
     edits = [("add", 1), ("add", 2), ("remove", 1, 0), ("remove", 2, 1), ("edit", 1, 0), ("edit", 1, 1), ("edit", 2, 0),
@@ -377,6 +377,7 @@ def run(chk):
         if d:
             chk.violation("C20 %s: correspondence broken: %s" % (kind, d), dict(what, correspondence="coq/Model/Heap.v h_step"), False)
     container_fetches(chk, rng)
+    shared_sources(chk, rng)
 
 
 def container_fetches(chk, rng):
@@ -430,6 +431,87 @@ def container_fetches(chk, rng):
                         chk.violation("C20 %s: editing a block fetched from an open file changed another fetch of the same block" % k,
                                       {"kind": k, "fetch": [w1, w2]}, True)
                         return
+
+
+def shared_sources(chk, rng):
+    """two items built by separate constructor calls from ONE caller-side source of numbers that is not itself a numpy
+    array of the stored type (a list, a tuple, an array of another dtype, array.array, a memoryview, an object offering
+    __array__ / the buffer protocol): each item owns its values — editing one changes neither the other nor the source"""
+    import array
+    from basictdf.tdfEvents import Event, EventsDataType
+    from basictdf.tdfData3D import MarkerTrack
+    from basictdf.tdfEMG import EMGTrack
+
+    class Offers:                       # an object that hands out its own float32 buffer
+        def __init__(self, a):
+            self.a = a
+
+        def __array__(self, dtype=None, copy=None):
+            return self.a
+
+        def __iter__(self):
+            return iter(self.a)
+
+        def __len__(self):
+            return len(self.a)
+
+    def sources(shape):
+        n = int(np.prod(shape))
+        base = [float(i + 1) for i in range(n)]
+        nested = np.array(base).reshape(shape).tolist()
+        f32 = np.array(base, dtype="<f4").reshape(shape)
+        out = [("list", lambda: nested), ("tuple", lambda: tuple(map(tuple, nested)) if len(shape) > 1 else tuple(nested)),
+               ("float64 array", lambda: np.array(base, dtype="<f8").reshape(shape)),
+               ("big-endian float32 array", lambda: f32.astype(">f4")),
+               ("int32 array", lambda: np.array(base, dtype="<i4").reshape(shape)),
+               ("object offering __array__", lambda: Offers(f32.copy()))]
+        if len(shape) == 1:
+            out += [("array.array('f')", lambda: array.array("f", base)), ("array.array('d')", lambda: array.array("d", base)),
+                    ("memoryview of float32", lambda: memoryview(f32.copy())),
+                    ("memoryview of array.array('f')", lambda: memoryview(array.array("f", base)))]
+        else:
+            out += [("memoryview of float32", lambda: memoryview(f32.copy()))]
+        return out
+
+    # adopts(src): the constructor keeps the caller's own array object (documented numpy-style adoption) — then the caller
+    # has placed ONE object in two items himself, which is the exception the property's oracle already makes
+    makers = [("Event", (2,), lambda src: Event("e", src, EventsDataType.eventSequence), lambda o: o.values,
+               lambda src: isinstance(src, np.ndarray) and src.dtype == np.dtype("<f4")),
+              ("MarkerTrack", (NF, 3), lambda src: MarkerTrack("m", src), lambda o: o.data, lambda src: isinstance(src, np.ndarray)),
+              ("EMGTrack", (NF,), lambda src: EMGTrack("s", src), lambda o: o.data, lambda src: isinstance(src, np.ndarray))]
+    for cname, shape, make, arr_of, adopts in makers:
+        for sname, mk in sources(shape):
+            src = mk()
+            if adopts(src):
+                continue
+            chk.note_case(("shared source", cname, sname), True)
+            try:
+                a, b = make(src), make(src)
+                later = None
+            except Exception:
+                chk.count("shared source: %s refuses %s" % (cname, sname))
+                continue
+            chk.count("shared source: %s from %s" % (cname, sname))
+            what = {"class": cname, "source": sname}
+            before_b = np.array(arr_of(b), dtype="<f8").tolist()
+            before_src = np.array(src if not isinstance(src, Offers) else src.a, dtype="<f8").tolist()
+            try:
+                arr_of(a)[...] = 99.0
+            except Exception as e:
+                chk.count("shared source: %s values not editable in place (%s)" % (cname, type(e).__name__))
+                continue
+            later = make(src)
+            found = None
+            if np.array(arr_of(b), dtype="<f8").tolist() != before_b:
+                found = "editing the values of one changed the other"
+            elif np.array(src if not isinstance(src, Offers) else src.a, dtype="<f8").tolist() != before_src:
+                found = "editing the values of one changed the caller's %s" % sname
+            elif np.array(arr_of(later), dtype="<f8").tolist() != before_b:
+                found = "a third one built afterwards starts with the edit already in it"
+            if found:
+                chk.violation("C20 %s: two objects built by separate constructor calls from the same %s: %s" % (cname, sname, found), what, True)
+                if chk.n_found() >= 3:
+                    return
 
 
 def replay(chk, path):
